@@ -34,8 +34,11 @@ type Client struct {
 	Log       []Published
 	Config    string // JSON text answered to workspace/configuration (array element); "" = error
 	ConfigErr bool
-	NConfig   int
-	Messages  []string
+	// ConfigQueue: answers for the next pulls, first in first out (when empty,
+	// Config is the answer)
+	ConfigQueue []string
+	NConfig     int
+	Messages    []string
 }
 
 func (c *Client) Progress(context.Context, *protocol.ProgressParams) error { return nil }
@@ -43,6 +46,8 @@ func (c *Client) WorkDoneProgressCreate(context.Context, *protocol.WorkDoneProgr
 	return nil
 }
 func (c *Client) LogMessage(_ context.Context, p *protocol.LogMessageParams) error {
+	vsched.EnterClient()
+	defer vsched.LeaveClient()
 	vsched.Point(vsched.KClient)
 	c.mu.Lock()
 	c.Messages = append(c.Messages, p.Message)
@@ -50,6 +55,8 @@ func (c *Client) LogMessage(_ context.Context, p *protocol.LogMessageParams) err
 	return nil
 }
 func (c *Client) PublishDiagnostics(_ context.Context, p *protocol.PublishDiagnosticsParams) error {
+	vsched.EnterClient()
+	defer vsched.LeaveClient()
 	vsched.Point(vsched.KClient)
 	b, err := json.Marshal(p)
 	if err != nil {
@@ -80,9 +87,17 @@ func (c *Client) ApplyEdit(context.Context, *protocol.ApplyWorkspaceEditParams) 
 	return false, nil
 }
 func (c *Client) Configuration(_ context.Context, _ *protocol.ConfigurationParams) ([]interface{}, error) {
+	vsched.EnterClient()
+	defer vsched.LeaveClient()
 	vsched.Point(vsched.KClient)
 	c.mu.Lock()
 	cfg := c.Config
+	if len(c.ConfigQueue) > 0 {
+		// answers are handed out in the order of the requests: the k-th pull is
+		// answered with the settings of the k-th change notification
+		cfg = c.ConfigQueue[0]
+		c.ConfigQueue = c.ConfigQueue[1:]
+	}
 	c.NConfig++
 	c.mu.Unlock()
 	if c.ConfigErr || cfg == "" {
@@ -99,6 +114,13 @@ func (c *Client) Configuration(_ context.Context, _ *protocol.ConfigurationParam
 }
 func (c *Client) WorkspaceFolders(context.Context) ([]protocol.WorkspaceFolder, error) {
 	return nil, nil
+}
+
+// QueueConfig appends an answer for a later pull.
+func (c *Client) QueueConfig(js string) {
+	c.mu.Lock()
+	c.ConfigQueue = append(c.ConfigQueue, js)
+	c.mu.Unlock()
 }
 
 // SetConfig changes what the client answers to workspace/configuration.
